@@ -18,6 +18,8 @@ COOKIES = {
     'dict': {'name': 'c', 'path': '/x', 'SameSite': 'Strict'},
     'dictbool': {'name': 'c', 'Secure': True, 'HttpOnly': False, 'path': '/'},
     'dictcall': {'name': 'c', 'Max-Age': lambda: '60', 'path': '/'},
+    # callables may also decide a flag attribute
+    'dictcallbool': {'name': 'c', 'Secure': lambda: False, 'HttpOnly': lambda: True, 'path': '/'},
 }
 OUTCOMES = {'none': None, 'true': True, 'false': False, 'zero': 0, 'emptystr': '',
             'text': 'go away', 'dict': {'reason': 'no', 'code': 7}, 'list': [1, 'two'], 'raise': 'RAISE'}
